@@ -54,6 +54,10 @@ def run_postcond(ck, spec_dir, module, cfg, trace, name, constants=None, timeout
             toks = [json.loads(x) if x.startswith('"') else x for x in line.split()]
             if toks:
                 devs.append(toks)
+    notes = []
+    np_ = os.path.join(r.dir, "note.txt")
+    if os.path.exists(np_):
+        notes = [[json.loads(x) if x.startswith('"') else x for x in line.split()] for line in open(np_)]
     post_false = bool(r.error and "Postcondition NoDeviation" in r.error) or "Postcondition NoDeviation" in r.out
     if r.violation or (r.error and not post_false):
         # a deadlock / invariant failure / tool error: the model could not even consume the trace
@@ -70,7 +74,7 @@ def run_postcond(ck, spec_dir, module, cfg, trace, name, constants=None, timeout
         ck.cov["validator_cmd"] = r.cmd
     core.log("  [val] %s/%s %s: %d lines, %.0fs -> %s" % (module, cfg, name, nlines, r.wall,
                                                          "accepted" if not devs else "%d deviations" % len(devs)))
-    return (not devs), devs
+    return (not devs), devs, notes
 
 
 def batches_by_size(path, max_bytes):
@@ -102,9 +106,12 @@ def part_tlv(ck):
     L_exec = 6 if thorough else 5
     recs_mc = 3 if thorough else 2
     recs_exec = 2
-    tlvcov = dict(alphabet="00 01 02 03 fc fd fe ff", known_types="1:uint8 2:var bytes 3:uint16")
+    tlvcov = dict(alphabet="00 01 02 03 fc fd fe ff", known_types="1:uint8 (DUint8) 2:[]byte (DVarBytes) 3:uint16 (DUint16)")
 
     # (a) exhaustive model checking: recogniser accepts exactly Canonical, and is lossless
+    if os.environ.get("VERIF_C10_SKIP_MC"):      # development / mutation-control runs only
+        ck.notes.append("VERIF_C10_SKIP_MC set: exhaustive model checking skipped in this run")
+        L_mc, recs_mc = 2, 1
     r = ck.model_check(TLV, "TlvStreamMC", "TlvStreamMC.cfg", "TlvStream bytes L<=%d x {p2p,non-p2p}" % L_mc,
                        constants={"L": L_mc}, name="mc_bytes", workers=WORKERS, timeout=2400)
     tlvcov["mc_bytes"] = dict(L=L_mc, states=r.distinct, wall_s=round(r.wall, 1))
@@ -149,13 +156,14 @@ def part_tlv(ck):
         p = os.path.join(ck.out, "tlv_batch_%d.ndjson" % i)
         open(p, "w").writelines(b)
         paths.append(p)
-    devs_all = []
+    devs_all, notes_all = [], []
     with concurrent.futures.ThreadPoolExecutor(max_workers=min(3, len(paths))) as ex:
         futs = [ex.submit(run_postcond, ck, TLV, "TlvStreamTrace", "TlvStreamTrace.cfg", p, "val_tlv_%d" % i)
                 for i, p in enumerate(paths)]
         for i, f in enumerate(futs):
-            ok, devs = f.result()
+            ok, devs, notes = f.result()
             devs_all += [(i, d) for d in devs]
+            notes_all += notes
 
     # statistics (measured on the trace) -----------------------------------------------------------
     n_in = n_acc = n_skip = 0
@@ -195,6 +203,11 @@ def part_tlv(ck):
         api, kind, cls, line = d[0], d[1], d[2], int(d[3])
         classes.setdefault(tlv_key(api, kind, cls), []).append((bi, api, kind, cls, line))
     tlvcov["deviation_classes"] = {k: len(v) for k, v in classes.items()}
+    ec = {}
+    for n in notes_all:
+        k = "%s: code '%s' / model '%s'" % (API_NAME.get(n[0], n[0]), n[1], n[2])
+        ec[k] = ec.get(k, 0) + 1
+    tlvcov["rejected_by_both_with_different_error_class"] = ec
     for key, items in sorted(classes.items()):
         bi, api, kind, cls, line = items[0]
         rec = by_batch[bi][line - 1]
@@ -223,7 +236,7 @@ def part_tlv(ck):
     ctl["r"]["DecodeP2P"]["k"] = []
     cp = os.path.join(ck.out, "tlv_control.ndjson")
     core.write_ndjson(cp, [ctl])
-    ok, devs = run_postcond(ck, TLV, "TlvStreamTrace", "TlvStreamTrace.cfg", cp, "control_tlv")
+    ok, devs, _ = run_postcond(ck, TLV, "TlvStreamTrace", "TlvStreamTrace.cfg", cp, "control_tlv")
     if ok or not any(d[0] == "DecodeP2P" and d[1] == "reject-canonical" for d in devs):
         raise Inconclusive("negative control accepted: TLV trace validation is not binding")
     ck.cov.setdefault("negative_controls", []).append(
@@ -254,7 +267,7 @@ def part_wire(ck):
     trace = os.path.join(res["dir"], "trace.ndjson")
     if res["rc"] != 0 or not os.path.exists(trace):
         raise Inconclusive("lnwire executor failed:\n" + res["out"][-3000:])
-    ok, devs = run_postcond(ck, WL, "WireLawsTrace", "WireLawsTrace.cfg", trace, "val_wirelaws",
+    ok, devs, _ = run_postcond(ck, WL, "WireLawsTrace", "WireLawsTrace.cfg", trace, "val_wirelaws",
                             constants={"Reps": reps})
     recs = core.read_ndjson(trace)
     laws = [x for x in recs if x["a"] == "Law"]
@@ -295,27 +308,28 @@ def part_wire(ck):
                               kind, t, rec.get("op"), rec.get("pos"), rec.get("rep")),
                      files={"trace.ndjson": one})
 
-    # negative control: an accepted case whose re-encoding is claimed not to be a fixpoint
-    if ok:
-        bad = copy.deepcopy(recs)
-        i = next(i for i, x in enumerate(bad) if x["a"] == "Law" and x["na"] == 0 and x["d1"] == 1 and x["op"] == "flip")
-        bad[i]["fix"] = 0
-        cp = os.path.join(ck.out, "wire_control.ndjson")
-        core.write_ndjson(cp, bad)
-        ok2, devs2 = run_postcond(ck, WL, "WireLawsTrace", "WireLawsTrace.cfg", cp, "control_wirelaws",
-                                  constants={"Reps": reps})
-        if ok2 or not any(d[0] == "fixpoint" for d in devs2):
-            raise Inconclusive("negative control accepted: WireLaws trace validation is not binding")
-        # and one dropped line: the plan must be reported as not covered
-        cp2 = os.path.join(ck.out, "wire_control2.ndjson")
-        core.write_ndjson(cp2, recs[:i] + recs[i + 1:])
-        ok3, devs3 = run_postcond(ck, WL, "WireLawsTrace", "WireLawsTrace.cfg", cp2, "control_wirelaws2",
-                                  constants={"Reps": reps})
-        if ok3 or not any(d[0] == "plan-not-covered" for d in devs3):
-            raise Inconclusive("negative control accepted: plan coverage is not binding")
-        ck.cov.setdefault("negative_controls", []).append(
-            dict(part="wirelaws", mutation="fix=0 on an accepted mutant; one plan line removed",
-                 rejected_by="fixpoint; plan-not-covered"))
+    # negative controls (always): an accepted mutant whose re-encoding is claimed not to be a fixpoint must be
+    # reported at exactly that line, and with one plan line removed the plan must be reported as not covered
+    flagged = {int(d[4]) for d in devs}
+    bad = copy.deepcopy(recs)
+    i = next(i for i, x in enumerate(bad) if x["a"] == "Law" and x["na"] == 0 and x["d1"] == 1 and x["op"] == "flip"
+             and (i + 1) not in flagged)
+    bad[i]["fix"] = 0
+    cp = os.path.join(ck.out, "wire_control.ndjson")
+    core.write_ndjson(cp, bad)
+    ok2, devs2, _ = run_postcond(ck, WL, "WireLawsTrace", "WireLawsTrace.cfg", cp, "control_wirelaws",
+                                 constants={"Reps": reps})
+    if ok2 or not any(d[0] == "fixpoint" and int(d[4]) == i + 1 for d in devs2):
+        raise Inconclusive("negative control accepted: WireLaws trace validation is not binding")
+    cp2 = os.path.join(ck.out, "wire_control2.ndjson")
+    core.write_ndjson(cp2, recs[:i] + recs[i + 1:])
+    ok3, devs3, _ = run_postcond(ck, WL, "WireLawsTrace", "WireLawsTrace.cfg", cp2, "control_wirelaws2",
+                                 constants={"Reps": reps})
+    if ok3 or not any(d[0] == "plan-not-covered" for d in devs3):
+        raise Inconclusive("negative control accepted: plan coverage is not binding")
+    ck.cov.setdefault("negative_controls", []).append(
+        dict(part="wirelaws", mutation="fix=0 on an accepted mutant (line %d); one plan line removed" % (i + 1),
+             rejected_by="fixpoint; plan-not-covered"))
     return wl
 
 
@@ -353,8 +367,8 @@ def run(ck):
         "reflect.DeepEqual as value equality (as TestLightningWireProtocol does)",
         "Num abstraction: 64-bit values as big-endian byte strings (order/equality only)"]
     ck.assumptions += [
-        "known-record table {1:uint8, 2:variable bytes with a decoder that takes nothing from the claimed length on "
-        "trust, 3:uint16}; tlv.DVarBytes and the other primitive decoders are not part of the TLV sub-result",
+        "known-record table {1:uint8, 2:[]byte, 3:uint16} built with tlv.MakePrimitiveRecord (DUint8, DVarBytes, "
+        "DUint16); the other primitive/truncated decoders of the tlv package are not part of the TLV sub-result",
         "byte level is bounded by L (a 9-byte BigSize cannot complete with a value inside L=7); the token level "
         "covers the wide encodings with symbolic boundary classes only",
         "allocation guard: an entry point observed allocating > 1 MiB + 4x input twice is not called again on inputs "
